@@ -229,6 +229,21 @@ fn projects(thorough: bool) -> Vec<Project> {
         );
         out.push(Project { label: format!("monorepo layout (packages/api/src, packages/web/src, packages/shared/src) mode={mode} schemaOutput={so}"), config, files, expect, schema_output: Some(so.to_string()) });
     }
+    // a plugin that adds schema text of its own (a virtual source that is not a file of the project): the `sources` of every
+    // map must still resolve and every segment of the operation maps must still point into the operation's own files
+    let (_, sfiles, sexp) = schema_variants().into_iter().nth(1).unwrap();
+    let (_, ofiles, oexp) = operation_variants().into_iter().nth(2).unwrap();
+    for mode in modes {
+        let so = if mode == "standalone-ts-4.0" { "out/schema.ts" } else { "out/schema.d.ts" };
+        let mut files = sfiles.clone();
+        files.extend(ofiles.clone());
+        let mut expect = sexp.clone();
+        expect.extend(oexp.clone());
+        let config = format!(
+            "schema: ./schema/*.graphql\ndocuments: ./ops/**/*.graphql\nextensions:\n  nitrogql:\n    plugins:\n      - \"nitrogql:model-plugin\"\n    generate:\n      mode: {mode}\n      schemaOutput: ./{so}\n      type:\n        scalarTypes:\n          Date: string\n"
+        );
+        out.push(Project { label: format!("model plugin enabled (a virtual schema source) schema=two-files operations=imported mode={mode} schemaOutput={so}"), config, files, expect, schema_output: Some(so.to_string()) });
+    }
     out
 }
 
@@ -326,10 +341,9 @@ fn check_project(cli: &str, index: usize, p: &Project, root: &Path, failures: &m
             let abs = lexical_normalize(&m.parent().unwrap().join(s));
             match inputs.get(&abs) {
                 Some(t) => src_text.push(Some((abs.strip_prefix(root).unwrap().display().to_string(), t.clone()))),
-                None => {
-                    fail(format!("{kind} map: a `sources` entry does not resolve to a GraphQL input file"), format!("{rel}: sources entry {s:?}"), String::new());
-                    src_text.push(None);
-                }
+                // an entry that no segment references is not covered by the property (a plugin's virtual source is listed
+                // like that): it becomes a failure when a segment points into it, below
+                None => src_text.push(None),
             }
         }
         let segs = match decode(j["mappings"].as_str().unwrap()) {
@@ -363,7 +377,11 @@ fn check_project(cli: &str, index: usize, p: &Project, root: &Path, failures: &m
                 prev_named = None;
                 continue;
             }
-            let Some((sfile, stext)) = src_text[s.src as usize].clone() else { continue };
+            let Some((sfile, stext)) = src_text[s.src as usize].clone() else {
+                fail(format!("{kind} map: a segment references a `sources` entry that does not resolve to a GraphQL input file"), format!("{}: sources entry {:?}", ctx(), sources[s.src as usize]), String::new());
+                prev_named = None;
+                continue;
+            };
             let slines: Vec<&str> = stext.split('\n').collect();
             let orest = if s.ol >= 0 { slines.get(s.ol as usize).and_then(|l| if s.oc >= 0 { from_col(l, s.oc as usize) } else { None }) } else { None };
             let Some(orest) = orest else {
